@@ -127,8 +127,9 @@ def structured(rng):
     d = pdfgen.page_doc(1)
     d.objects[1][b"Y"] = d.add(Stream({b"Type": N("ObjStm"), b"N": 3, b"First": 10, b"Extends": Ref(max(d.objects) + 1)}, b"7 0 8 1 9 2 <<>> 1 2"))
     docs.append(pdfgen.write_classic(d)[0])
-    # named inputs (the name is part of the violation signature).  png-row-wrap: predictor parameters for which a row has
-    # exactly 2^32 - 1 bytes - Pl_PNGFilter allocates its row buffers with the uint32_t sum bytes_per_row + 1 = 0 (D-C04-png-row-wrap)
+    # named inputs (the name is part of the violation signature; they also run through the plain build).  png-row-wrap: predictor
+    # parameters for which a row has exactly 2^32 - 1 bytes - before the repair of D-C04-png-row-wrap Pl_PNGFilter allocated its row
+    # buffers with the uint32_t sum bytes_per_row + 1 = 0 and `qpdf --check` died with SIGSEGV; it must be refused with a warning
     structured.names = {}
     import zlib
     d = pdfgen.page_doc(1)
@@ -222,6 +223,7 @@ def run(chk):
              ["--optimize-images"], ["--externalize-inline-images", "--optimize-images", "--oi-min-area=0"], ["--flatten-annotations=all", "--generate-appearances"]]
     jobs = []
     name_of = {}
+    named_reported = {}
     for i, data in enumerate(inputs):
         p = os.path.join(wd, "in%d.pdf" % i)
         open(p, "wb").write(data)
@@ -272,11 +274,34 @@ def run(chk):
         if cls != "ok":
             # reproduce alone before reporting (budgets, flaky resource pressure)
             cls2, rc2, se2 = runjob((p, m, n))
+            if cls2 != "ok" and p in name_of and named_reported.setdefault(p, 0) >= 1:
+                continue                      # a named regression input is reported once per build (it fails the same way in most modes)
             if cls2 != "ok":
+                if p in name_of:
+                    named_reported[p] += 1
                 chk.violation({"kind": "property-fails-on-implementation", "why": "qpdf did not end in a documented way: " + cls2, "input": p,
                                "input_hex_prefix": open(p, "rb").read()[:200].hex(), "argv": ["qpdf"] + m, "exit": rc2,
                                "stderr_tail": se2.decode("latin-1")[-1200:]},
                               signature="c04:%s:%s" % (cls2, " ".join(m)) + (":" + name_of[p] if p in name_of else ""))
+    # the named regression inputs through the PLAIN build as well (a memory error that the sanitizer build reports is a signal here)
+    for p, name in sorted(name_of.items()):
+        for m in (["--check"], ["--decode-level=all", "--stream-data=uncompress"]):
+            args = m + [p] + ([] if m[0] == "--check" else [p + ".plain.out"])
+            try:
+                # (address space 16 GB: under a 4 GB limit the 4 GB copy of the png-row-wrap defect fails with bad_alloc, which is caught)
+                q = subprocess.run(["bash", "-c", "ulimit -v 16000000; ulimit -c 0; exec \"$0\" \"$@\"", common.QPDF] + args, stdout=subprocess.PIPE, stderr=subprocess.PIPE, timeout=60)
+                rc, so, se = q.returncode, q.stdout, q.stderr
+            except subprocess.TimeoutExpired:
+                rc, so, se = -999, b"", b"timeout"
+            cls = classify(rc, so[-4000:], se[-20000:], 0, 60)
+            kinds["plain:" + cls + "/exit%s" % rc] = kinds.get("plain:" + cls + "/exit%s" % rc, 0) + 1
+            if cls != "ok" and ("plain", p) in named_reported:
+                continue
+            if cls != "ok":
+                named_reported[("plain", p)] = 1
+                chk.violation({"kind": "property-fails-on-implementation", "why": "qpdf (plain build) did not end in a documented way: " + cls, "input": p,
+                               "input_hex_prefix": open(p, "rb").read()[:200].hex(), "argv": ["qpdf"] + m, "exit": rc,
+                               "stderr_tail": se.decode("latin-1")[-1200:]}, signature="c04:plain:%s:%s:%s" % (cls, " ".join(m), name))
     chk.count("cli-malformed-asan", len(jobs), nontriv, samples=[{"input": os.path.basename(jobs[0][0]), "mode": jobs[0][1]}])
     chk.cov["parts"]["cli-malformed-asan"]["outcome_classes"] = kinds
     chk.cov["parts"]["cli-malformed-asan"]["explanation"] = "testing, not proof: sanitizer verdicts and budgets on a sampled malformed stream"
